@@ -61,3 +61,81 @@ Theorem C04_crash_run_example :
   end.
 Proof. exact crash_run. Qed.
 Print Assumptions C04_crash_run_example.
+
+(* ======== second model (Pipe/CrashSeen.v): the seen-store and the per-seed fetch ========
+   The seen-store is durable and written when a seed is pre-processed, before its fetch; a seed is
+   reported finished only once its own URL has been dealt with in the current run (captured with a
+   complete record, failed for good) or the store answered "seen". *)
+From ZenoV Require Import Pipe.CrashSeen Pipe.CrashSeenProofs.
+
+(* Finished implies captured, seed by seed, for every history of claims, fetches, failures,
+   finishes, delete batches, kills, stops and restarts: a row is deleted only for a seed whose own
+   URL has a complete response record on disk or failed for good - the ONLY other way, and only with
+   the local seencheck in use, is a seed that a kill or stop caught between the seen-store write and
+   its capture (known finding seen-write-ahead, characterised exactly). *)
+Theorem C04_deleted_seed_accounted : forall sc ids ls s,
+  srun (sinit sc ids) ls = Some s ->
+  forall i, In i (s_deleted s) ->
+    In i (s_warc s) \/ In i (s_failed s) \/ (sc = true /\ In i (s_lostpre s)).
+Proof. exact deleted_accounted. Qed.
+Print Assumptions C04_deleted_seed_accounted.
+
+(* --disable-seencheck: no exception, whatever the kill and stop moments *)
+Theorem C04_deleted_seed_captured_without_seencheck : forall ids ls s,
+  srun (sinit false ids) ls = Some s ->
+  forall i, In i (s_deleted s) -> In i (s_warc s) \/ In i (s_failed s).
+Proof. exact deleted_captured_without_seencheck. Qed.
+Print Assumptions C04_deleted_seed_captured_without_seencheck.
+
+(* ... and none either, seencheck or not, in a history without a kill or stop *)
+Theorem C04_deleted_seed_captured_uninterrupted : forall sc ids ls s,
+  srun (sinit sc ids) ls = Some s -> interrupts ls = false ->
+  forall i, In i (s_deleted s) -> In i (s_warc s) \/ In i (s_failed s).
+Proof. exact deleted_captured_uninterrupted. Qed.
+Print Assumptions C04_deleted_seed_captured_uninterrupted.
+
+(* the exception is real: pre-processed, killed before the fetch, resumed, skipped as seen, deleted
+   with no record and no failure *)
+Theorem C04_seen_write_ahead_refuted :
+  exists ls s, srun (sinit true [1]) ls = Some s /\ In 1 (s_deleted s) /\ s_rows s = []
+               /\ s_warc s = [] /\ s_failed s = [] /\ s_lostpre s = [1].
+Proof. exact seen_write_ahead_witness. Qed.
+Print Assumptions C04_seen_write_ahead_refuted.
+
+(* a resumed row is really crawled again: in every run a seed is reported finished only after its own
+   URL was fetched (or failed for good) in THAT run, unless the seen-store holds it *)
+Theorem C04_finish_needs_fetch_in_this_run : forall sc ids ls s id s',
+  srun (sinit sc ids) ls = Some s -> sstep s (SFinish id) = Some s' ->
+  In id (s_done s) \/ (sc = true /\ In id (s_seen s)).
+Proof. exact finish_needs_fetch_in_this_run. Qed.
+Print Assumptions C04_finish_needs_fetch_in_this_run.
+
+(* the first model simulates the second (SPre and SFail stutter, SCapture = LWrite;LAck), so its
+   theorems hold of the richer model: *)
+Theorem C04_second_model_refines_first : forall sc ids ls s,
+  srun (sinit sc ids) ls = Some s ->
+  run (init true ids) (flat_map abs_label ls) = Some (abs s).
+Proof. exact second_refines_first. Qed.
+Print Assumptions C04_second_model_refines_first.
+
+Theorem C04_rows_never_lost : forall sc ids ls s,
+  srun (sinit sc ids) ls = Some s ->
+  (forall i, In i ids -> In i (srow_ids s) \/ In i (s_deleted s))
+  /\ (forall i, In i (s_deleted s) -> ~ In i (srow_ids s)).
+Proof. exact rows_never_lost. Qed.
+Print Assumptions C04_rows_never_lost.
+
+(* non-vacuity: the kill catches seed 2 after its capture and seed 3 after the seen-store write only;
+   the resumed run skips both: 2 has its record, 3 is the lost one *)
+Theorem C04_crash_seen_example :
+  match srun (sinit true [1; 2; 3])
+     [SClaim [1; 2; 3]; SInsert 1; SInsert 2; SInsert 3; SPre 1; SPre 2; SPre 3; SCapture 1; SFinish 1; SDelete [1];
+      SCapture 2; SCrash; SRestart] with
+  | Some s => match drive s [2; 3] with
+              | Some s2 => s_warc s2 = [1; 2] /\ s_lostpre s2 = [3] /\ s_pend s2 = [3; 2] /\ s_deleted s2 = [1]
+              | None => False
+              end
+  | None => False
+  end.
+Proof. exact crash_seen_example. Qed.
+Print Assumptions C04_crash_seen_example.
